@@ -1,5 +1,6 @@
 import Driver.Common
 import AslModel.Array
+import AslModel.ArrayNested
 /-! Model driver for C01 (Array / Stack / Queue).  Same op lines as `harness/c01.cpp`.
 
 Line: `<t><c> <op> <args…>` with element type `t` ∈ {i = int, s = String, c = Counted} and container
@@ -117,8 +118,35 @@ structure All where
   i : Array (St Int)
   s : Array (St Bytes)
   c : Array (St Int)
+  n : AslModel.ArrN.NSt
 
-def All.init : All := ⟨Array.replicate 3 St.init, Array.replicate 3 St.init, Array.replicate 3 St.init⟩
+def All.init : All := ⟨Array.replicate 3 St.init, Array.replicate 3 St.init, Array.replicate 3 St.init, AslModel.ArrN.NSt.init⟩
+
+/-- `na <op> …` : arrays of `Node { int v; Array<Node> kids; }` (reference-level model, see `AslModel/ArrayNested.lean`) -/
+def parseN (ts : List String) : Option AslModel.ArrN.NOp :=
+  let nat (s : String) : Option Nat := s.toNat?
+  match ts with
+  | ["new", h] => do some (.new (← nat h))
+  | ["drop", h] => do some (.drop (← nat h))
+  | ["cp", h, g] => do some (.cp (← nat h) (← nat g))
+  | ["app", h, v] => do some (.app (← nat h) (← v.toInt?))
+  | ["kapp", h, j, v] => do some (.kapp (← nat h) (← nat j) (← v.toInt?))
+  | ["getk", t, h, j] => do some (.getk (← nat t) (← nat h) (← nat j))
+  | ["asgk", h, j] => do some (.asgk (← nat h) (← nat j))
+  | ["apndk", h, j] => do some (.apndk (← nat h) (← nat j))
+  | ["copyk", h, j] => do some (.copyk (← nat h) (← nat j))
+  | ["rem", h, i] => do some (.rem (← nat h) (← nat i))
+  | _ => none
+
+def runN (st : AslModel.ArrN.NSt) (ts : List String) : AslModel.ArrN.NSt × String :=
+  match ts with
+  | ["reset"] => (AslModel.ArrN.NSt.init, "ok")
+  | _ =>
+    match parseN ts with
+    | none => (st, "bad-op")
+    | some op =>
+      let (st', done) := AslModel.ArrN.step st (AslModel.ArrN.normOp op)
+      (st', (if done then "ok" else "skip") ++ " | " ++ AslModel.ArrN.showState st')
 
 def contIdx : Char → Option Nat
   | 'a' => some 0
@@ -130,6 +158,9 @@ def step (a : All) (ts : List String) : All × String :=
   match ts with
   | p :: rest =>
     match p.toList with
+    | ['n', 'a'] =>
+      let (st, out) := runN a.n rest
+      ({ a with n := st }, out)
     | [t, k] =>
       match contIdx k with
       | none => (a, "bad-op")
